@@ -12,11 +12,11 @@ from mc.gen import render
 
 ID = "C14"
 LEVEL = "fault_enumeration"
-LEVEL_TEXT = ("Complete enumeration of valid generated program x every statement position (top level and inside blocks, named scopes, loop bodies, taken .if branches and bodies of applied macros; every top-level variant also with the whole program in an .include'd file) x 46 classes of definite error "
+LEVEL_TEXT = ("Complete enumeration of valid generated program x every statement position (top level and inside blocks, named scopes, loop bodies, taken .if branches and bodies of applied macros; every top-level variant also with the whole program in an .include'd file) x 52 classes of definite error "
               "(bad character, bad size suffix, bad index register, unterminated string, unterminated comment, missing closing brace, "
               "stray token, undefined symbol in an operand / in data, undefined macro, too few macro arguments, addressing mode or "
               "width the mnemonic lacks, branch out of range, *= to an unmapped bank, missing .include/.incbin/.table/.include_ips "
-              "file, .text without a table) x 5 entry points (string API, Program.assemble, Program.assemble_as_patch, cli_main for "
+              "file, .text without a table, a branch into another bank at the same in-bank offset, an undefined name in an assignment or macro argument nobody reads, *= / @= beyond 24 bits, ...) x 5 entry points (string API, Program.assemble, Program.assemble_as_patch, cli_main for "
               "ips and sfc), plus one real CLI process per (error class, format); the unmodified programs are the negative control. "
               "Five unit tests assert NodeError from the string API only.")
 LEVEL_NOTE = ("Failure = non-None return, non-zero status, or any exception; success must not be announced in the log. Positions are "
@@ -75,8 +75,16 @@ FAULTS = {
     "branch-to-ram": "bra 0x7e0000",
     "immediate-with-index": "lda #0x12,x",
     "indirect-long-with-x": "lda [0x12],x",
+    # errors that stay invisible unless the failing value is really looked at
+    "branch-to-same-offset-in-next-bank": "*=0x038000\nc14far1:\nbra c14far1+0x10002",
+    "branch-half-a-bank-away": "*=0x048000\nc14far2:\nbra c14far2+0x8002",
+    "undefined-symbol-in-unused-assignment": "c14u = nosuchsymbol + 1",
+    "undefined-symbol-in-unused-macro-argument": "c14ignore(nosuchsymbol)",
+    "org-beyond-24-bits": "*=0x1008000\n.db 1",
+    "relocation-beyond-24-bits": "@=0x1008000\n.db 1",
 }
-PRELUDE = [("macro", "c14two", ["p", "q"], [("data", "db", [("s", "p"), ("s", "q")])])]
+PRELUDE = [("macro", "c14two", ["p", "q"], [("data", "db", [("s", "p"), ("s", "q")])]),
+           ("macro", "c14ignore", ["p"], [("data", "db", [("n", 1, "1")])])]
 ENTRIES = ["string-api", "assemble", "assemble_as_patch", "cli-ips", "cli-sfc"]
 
 
@@ -108,7 +116,7 @@ def setup(tier, seed):
 
 
 def bound(tier):
-    return "7 base programs x every top-level and nested position x 46 error classes x 5 in-process entry points; 46 x 2 real CLI processes; controls"
+    return "7 base programs x every top-level and nested position x 52 error classes x 5 in-process entry points; 52 x 2 real CLI processes; controls"
 
 
 def base_programs():
